@@ -22,7 +22,9 @@ CONSTANTS MaxCalls,
           CapsPairs,      \* sequence of [pre, post]: capability views before / after TLS
           Prefs,          \* preferred-mechanism arguments ("" = none given)
           TLSArgs,        \* subset of BOOLEAN: values of the starttls argument
-          Reactions,      \* server reactions to a command: subset of {"OK","NO","BYE","silence","garbage"}
+          Reactions,      \* server reactions to a command: subset of {"OK","NO","BYE","silence","garbage","reset"}
+                          \* (reset: the connection was reset by the peer, already the client's *write* fails; the
+                          \*  environment would accept a new connection, which a correct client does not open on its own)
                           \* (garbage: octets that are no reply at all; a client can only time out on them)
           OpVerbs,        \* script operations exercised
           EnabledDevs
@@ -102,11 +104,24 @@ PostCaps(r) ==
      ELSE phase' = "idle" /\ chan' = "dead" /\ UNCHANGED caps
   /\ UNCHANGED <<conn, cliAuth, srvAuth, cur, ncalls, wire>>
 
+\* Mechanisms whose exchange takes several round trips.  DIGEST-MD5 (RFC 2831 over RFC 5804 2.1):
+\*   C: AUTHENTICATE "DIGEST-MD5"      S: challenge                      (Auth, reaction OK = "challenge sent")
+\*   C: response                       S: rspauth challenge              (AuthRespond)
+\*   C: ""                             S: OK                             (AuthFinish)
+\* the server may answer NO / BYE / nothing / garbage at each of the three steps; only the OK that ends
+\* the third step authenticates the connection.
+MultiStep == {"DIGEST-MD5"}
+
 Auth(r) ==
   /\ phase = "auth"
   /\ LET m == ChooseMech(caps.sasl, cur.pref) IN
      IF m = ""
      THEN /\ Fail("no mechanism") /\ UNCHANGED <<wire, cliAuth, srvAuth, chan>>
+     ELSE IF m \in MultiStep /\ r = "OK"
+     THEN /\ wire' = Append(wire, Write("AUTHENTICATE", m))
+          /\ hist' = Ev(Ev(hist, <<"write", chan, "AUTHENTICATE", m>>), <<"srv", "auth", r>>)
+          /\ phase' = "auth2"
+          /\ UNCHANGED <<cliAuth, srvAuth, chan>>
      ELSE /\ wire' = Append(wire, Write("AUTHENTICATE", m))
           /\ hist' = Ev(Ev(Ev(hist, <<"write", chan, "AUTHENTICATE", m>>), <<"srv", "auth", r>>),
                         <<"ret", IF r = "OK" THEN "ok" ELSE "fail", "auth">>)
@@ -116,15 +131,41 @@ Auth(r) ==
           /\ chan' = IF r \in {"OK", "NO"} THEN chan ELSE "dead"
   /\ UNCHANGED <<conn, caps, cur, ncalls>>
 
+AuthRespond(r) ==     \* the client answers the challenge; OK = the server accepts and sends its rspauth
+  /\ phase = "auth2"
+  /\ wire' = Append(wire, Write("CONT", ""))
+  /\ hist' = Ev(Ev(hist, <<"write", chan, "CONT", "">>), <<"srv", "auth2", r>>)
+             \o (IF r = "OK" THEN <<>> ELSE << <<"ret", "fail", "auth2">> >>)
+  /\ phase' = IF r = "OK" THEN "auth3" ELSE "idle"
+  /\ chan' = IF r \in {"OK", "NO"} THEN chan ELSE "dead"
+  /\ UNCHANGED <<conn, caps, cur, ncalls, cliAuth, srvAuth>>
+
+AuthFinish(r) ==      \* the client acknowledges with an empty response; the server ends the exchange
+  /\ phase = "auth3"
+  /\ wire' = Append(wire, Write("CONT", ""))
+  /\ hist' = Ev(Ev(Ev(hist, <<"write", chan, "CONT", "">>), <<"srv", "auth3", r>>),
+                <<"ret", IF r = "OK" THEN "ok" ELSE "fail", "auth3">>)
+  /\ phase' = "idle"
+  /\ cliAuth' = (r = "OK")
+  /\ srvAuth' = IF r = "OK" THEN srvAuth \cup {conn} ELSE srvAuth
+  /\ chan' = IF r \in {"OK", "NO"} THEN chan ELSE "dead"
+  /\ UNCHANGED <<conn, caps, cur, ncalls>>
+
 \* ---- script operations and logout
+\* LOGOUT and CAPABILITY are not script commands: the client sends them on any open connection, authenticated or
+\* not (calling them on a client that never connected is outside the model: there is no socket).  After LOGOUT
+\* the server closes the connection (RFC 5804 2.3); the client keeps its flag -- a later operation is written to
+\* the closed connection and fails there.
+NoAuthVerbs == {"LOGOUT", "CAPABILITY"}
 CallOp(v, r) ==
   /\ phase = "idle" /\ ncalls < MaxCalls
+  /\ v \in NoAuthVerbs => chan # "none"
   /\ ncalls' = ncalls + 1
-  /\ IF cliAuth
+  /\ IF cliAuth \/ v \in NoAuthVerbs
      THEN /\ wire' = Append(wire, Write(v, ""))
           /\ hist' = hist \o << <<"call", "op", v>>, <<"write", chan, v, "">>, <<"srv", "op", r>>,
                                 <<"ret", IF r = "OK" THEN "ok" ELSE "fail", "op">> >>
-          /\ chan' = IF r \in {"OK", "NO"} THEN chan ELSE "dead"
+          /\ chan' = IF r = "NO" \/ (r = "OK" /\ v # "LOGOUT") THEN chan ELSE "dead"
      ELSE /\ hist' = hist \o << <<"call", "op", v>>, <<"ret", "refused", "op">> >>
           /\ UNCHANGED <<wire, chan>>
   /\ UNCHANGED <<conn, cliAuth, srvAuth, caps, phase, cur>>
@@ -136,6 +177,8 @@ Next ==
   \/ \E ok \in BOOLEAN : Handshake(ok)
   \/ \E r \in Reactions : PostCaps(r)
   \/ \E r \in Reactions : Auth(r)
+  \/ \E r \in Reactions : AuthRespond(r)
+  \/ \E r \in Reactions : AuthFinish(r)
   \/ \E v \in OpVerbs, r \in Reactions : CallOp(v, r)
 
 Spec == Init /\ [][Next]_vars
